@@ -11,7 +11,7 @@ func init() {
 		ID: "C21",
 		Decides: "(R21.1) commit marker last: the block writer merges its database only after all queued writes were flushed (save worker waited, database Write succeeded), the block map and the suffrage proof were set; the temp database's merged marker is written only by TempLeveldb.Merge and the center publishes the temp only after that write succeeded; " +
 			"(R21.2) loader gate: at start-up a temp database is used only if it opened and carries the merged marker, all other prefixes of that height are removed, and temps are loaded strictly at last+1; " +
-			"(R21.3) permanent merge ordering: the key that makes a block visible to the permanent loader (the block map) is written only after all other batches of that block were written.",
+			"(R21.3) permanent merge ordering: the key that makes a block visible to the permanent loader (the block map) is written only after all other batches of that block were written.; (R21.3) jobs handed to a worker read only captured variables that the submitter does not assign again (no job works on a later batch/slot than the one it was created for)",
 		NotDecided: "enumeration of crash points; atomicity of a single leveldb batch; the local-fs part of a block.",
 		Run:        runC21,
 	})
@@ -64,6 +64,9 @@ func runC21(c *Ctx) {
 	}
 	loaderGateRules(c, "R21.2")
 	// R21.3 --------------------------------------------------------------------------------------
+	c.Rule("R21.3", "MustPass")
+	c.AsyncCaptures(c.Need("isaac/database.(*LeveldbPermanent).mergeTempDatabaseFromLeveldb"), "*.NewJob", 2)
+	c.AsyncCaptures(c.Need("isaac/database.(*LeveldbBlockWrite).SetStates"), "*.NewJob", 1)
 	c.Rule("R21.3", "MustPass")
 	if fn := c.Need("isaac/database.(*LeveldbPermanent).mergeTempDatabaseFromLeveldb"); fn != nil {
 		// the write that makes the block visible to loadLastBlockMap must come after worker.Wait():
@@ -174,7 +177,25 @@ func loaderGateRules(c *Ctx, rule string) {
 		c.ArgIs(fn, "temps loaded strictly at the next height", lt, 1, 1, "(φ(*) + 1)")
 		c.Exists(fn, "blocks above the last loadable temp are removed", c.CallsTo(fn, "isaac/database.removeHigherHeights"), 1)
 	}
+	mergedMarkerRules(c)
 	if fn := c.Need("isaac/database.(*Center).load"); fn != nil {
 		c.ArgIs(fn, "temps loaded above the permanent database's last height", c.CallsTo(fn, "isaac/database.loadTemps"), 1, 1, "φ(-1|db.perm.LastBlockMap()#0.Manifest().Height())", "φ(base.NilHeight|db.perm.LastBlockMap()#0.Manifest().Height())")
+	}
+}
+
+// mergedMarkerRules (shared by C19, C20, C21 under the caller's current rule): the merged marker —
+// which makes a temp database the one the loader picks for its height after a reopen — is written
+// only for a temp that the center accepts: of the height following the newest one.
+func mergedMarkerRules(c *Ctx) {
+	fn := c.Need("isaac/database.(*Center).MergeBlockWriteDatabase")
+	if fn == nil {
+		return
+	}
+	mk := c.CallsD(fn, "w.TempDatabase()#0.Merge()")
+	c.MP(fn, "merged marker written only for a temp of the next height", mk, 1,
+		GCmp("w.TempDatabase()#0.Height()", "==", "(φ(*) + 1)"), GCmp("φ(*)", "<=", "base.NilHeight"))
+	c.Held(fn, nil, "merged marker written under the center lock", mk, 1, "&db.l", LW)
+	if m := c.Need("isaac/database.(*TempLeveldb).Merge"); m != nil {
+		c.Exists(m, "Merge writes the marker of its own height", c.CallsD(m, "*.Put(isaacdatabase.leveldbTempMergedKey(db.Height()), *)"), 1)
 	}
 }
